@@ -25,7 +25,7 @@ ID = 'C07'
 
 MANIFEST = dict(
     technique='explicit-state enumeration of all ordered line lists x batch sizes x modes x stub networks on the real engine (real constructor, TorchScript stub); differential oracle = each line recognised alone by a fresh engine',
-    text='Bounded exhaustive: every ordered list of 0-2 line crops over a 19-crop alphabet (widths 1..300, equal-width twins, an over-long crop) x batch size {1,2,3,16} (quick) / 1..16 (thorough) x {sparse, dense, tight-crop, no-logits} x two stub networks, every list of 3 crops for batch sizes {1,16} on the local stub (quick) / all batch sizes and both stubs (thorough), lists of 4 over a 6-crop sub-alphabet (thorough), each recognised, recognised again in reverse order on the same engine, and through PageOCR.process_page. At every position the text, the logits on the line\'s own frames and the frame window must equal those of the line recognised alone; sparse storage must hold exactly the dense logits with posterior >= 1e-4. Added sub-sweeps: crops of 417 / 440 / 448 / 500 px around the smallest engine maximum, a blank crop, a crop with logit range > 200, an embedding engine whose id changes between calls, 260 lines in one call, and a sparsification clause (exactly the entries with posterior >= 1e-4). Crops with identical bytes but different shape/dtype (the float64 placeholder of a failed crop next to a blank uint8 crop) in one call; the call after one in which the network raised out-of-memory once (injected fault). Wave 10: (1) every fault point of the call on the list itself (mc/faults.py Injector on the network call, lists of 1-3, batch sizes {2,16} quick / all thorough): the call may raise, but a value it returns - and the next call on that engine - must give every line its own result; (2) mode history: after its calls in mode m the same engine recognises the list (1-2 crops) in every other mode, all ordered pairs of modes, each result compared with the line alone in that mode; (3) reference decoder clause: every dense / sparse transcription must be the greedy CTC decoding (each line on its own, no predecessor for frame 0) of the logits returned at that position, and the embedding stub makes the padding read as each character a, b, c (not blank) so that the first and last frame of a buffer row carry a character. Wave 11: page-size sub-sweep - PageOCR.process_page on pages of B - 1, B and B + 1 lines for B in {64, 100, 128, 256, 500, 512, 1000, 1024, 2048} (quick; thorough also 2000, 4096, 5000), both stubs, lines in three regions one of which is empty; every line of the page, in reading order, must carry the transcription, logits, frame window and alphabet of its own crop recognised alone.',
+    text='Bounded exhaustive: every ordered list of 0-2 line crops over a 19-crop alphabet (widths 1..300, equal-width twins, an over-long crop) x batch size {1,2,3,16} (quick) / 1..16 (thorough) x {sparse, dense, tight-crop, no-logits} x two stub networks, every list of 3 crops for batch sizes {1,16} on the local stub (quick) / all batch sizes and both stubs (thorough), lists of 4 over a 6-crop sub-alphabet (thorough), each recognised, recognised again in reverse order on the same engine, and through PageOCR.process_page. At every position the text, the logits on the line\'s own frames and the frame window must equal those of the line recognised alone; sparse storage must hold exactly the dense logits with posterior >= 1e-4. Added sub-sweeps: crops of 417 / 440 / 448 / 500 px around the smallest engine maximum, a blank crop, a crop with logit range > 200, an embedding engine whose id changes between calls, 260 lines in one call, and a sparsification clause (exactly the entries with posterior >= 1e-4). Crops with identical bytes but different shape/dtype (the float64 placeholder of a failed crop next to a blank uint8 crop) in one call; the call after one in which the network raised out-of-memory once (injected fault). Wave 10: (1) every fault point of the call on the list itself (mc/faults.py Injector on the network call, lists of 1-3, batch sizes {2,16} quick / all thorough): the call may raise, but a value it returns - and the next call on that engine - must give every line its own result; (2) mode history: after its calls in mode m the same engine recognises the list (1-2 crops) in every other mode, all ordered pairs of modes, each result compared with the line alone in that mode; (3) reference decoder clause: every dense / sparse transcription must be the greedy CTC decoding (each line on its own, no predecessor for frame 0) of the logits returned at that position, and the embedding stub makes the padding read as each character a, b, c (not blank) so that the first and last frame of a buffer row carry a character. Wave 11: page-size sub-sweep - PageOCR.process_page on pages of B - 1, B and B + 1 lines for B in {64, 100, 128, 256, 500, 512, 1000, 1024, 2048} (quick; thorough also 2000, 4096, 5000), both stubs, lines in three regions one of which is empty; every line of the page, in reading order, must carry the transcription, logits, frame window and alphabet of its own crop recognised alone; and a batch-size clause: a line whose own pixels fit the engine maximum of its batch size (417 / 440 / 448 px at batch size 1) has, on its own frame window, the logits and the text it has at batch size 16 (the alone-run shares the budget of the call and cannot see own pixels lost at a small budget).',
     note='Stub networks with bounded horizontal receptive field (the property is stated for those); CPU only; float tolerance 1e-5 on logits.',
     ref='3/C07')
 
@@ -303,6 +303,23 @@ def check_case(case, ctx):
         ok = compare(pos, i, (out1[0][pos], out1[1][pos], out1[2][pos]), ref, mode, CROPS[i][0], bs, cx, K, desc, case, ctx) and ok
         if not ok:
             return
+    # 'does not depend on the batch size': a line whose own pixels fit the engine maximum of this batch size (only padding is cut) has, on its own
+    # frame window, the logits it has under the largest budget, and the same text.  The alone-run above shares the budget of the call, so a line
+    # that loses own pixels at a small budget loses them there too.  Strictly local stub only: no frame of the window can see the cut padding
+    if mode in ('sparse', 'dense') and cx == 0 and bs != 16:
+        for pos, i in enumerate(lst):
+            w = CROPS[i][0]
+            if w + 31 + 64 > 480 and 32 + w <= 480 * bs:
+                bt, blg, bco = reference(i, 16, cx, mode)
+                co = out1[2][pos]
+                mine, big = todense(out1[1][pos])[co[0]:co[1]], blg[bco[0]:bco[1]]
+                ctx.tag('line-that-just-fits-compared-with-the-largest-batch-size')
+                if out1[0][pos] != bt or mine.shape != big.shape or (mine.size and not (np.abs(mine - big).max() <= 1e-5)):
+                    ctx.violation('result-independent-of-batch-size', f'{K}/line-that-fits-differs-from-its-result-at-the-largest-batch-size',
+                                  f'{desc}: position {pos} (crop {CROPS[i]}, its {w} px fit the {480 * bs} px of this engine): text {out1[0][pos]!r}, with '
+                                  f'batch size 16 {bt!r}; logits on the own frame window equal: '
+                                  f'{bool(mine.shape == big.shape and (not mine.size or np.abs(mine - big).max() <= 1e-5))}')
+                    return
     # sparse storage: exactly the dense logits with posterior >= 1e-4
     if mode == 'sparse' and lst:
         d = run(make_engine(bs, cx), imgs, 'dense')
@@ -518,5 +535,6 @@ def describe(tier):
         'required_tags': ['network-failure-injected-at-every-network-call-of-a-call', 'mode-changed-between-calls-on-one-engine',
                           'transcription-decoded-again-from-the-returned-logits', 'padding-reads-as-every-character-of-the-alphabet',
                           'call-after-an-injected-out-of-memory-error', 'network-with-minus-infinity-logits', 'more-than-255-lines-in-one-call', 'embedding-engine-id-changed-between-calls', 'mixed-width-batches', 'truncated-line', 'several-batches', 'equal-width-lines', 'page-ocr-pages',
-                          'page-with-a-line-count-next-to-a-round-number', 'page-with-more-than-512-lines', 'sparse-keeps-small-and-prunes-smaller'],
+                          'page-with-a-line-count-next-to-a-round-number', 'page-with-more-than-512-lines', 'line-that-just-fits-compared-with-the-largest-batch-size',
+                          'sparse-keeps-small-and-prunes-smaller'],
     }
